@@ -173,7 +173,8 @@ class Check:
                 explanation='states = symbolic paths explored (each covers every input satisfying its path condition); '
                             'transitions = two-sided symbolic branch decisions; every verdict is an SMT query over the '
                             'path condition of the MIR of /repo as compiled on this run',
-                obligations=self.obligations,
+                obligations=len(self.obligations), discharged=sum(1 for o in self.obligations if not o.get('failed')),
+                obligation_details=self.obligations,
                 solver=dict(name='z3 ' + engine.z3.get_version_string(), queries=self.totals['queries'],
                             solver_s=round(self.totals['solver_s'], 2), branches=self.totals['branches']),
                 mir_statements_executed=self.totals['steps'],
